@@ -294,12 +294,12 @@ func (ed Editor) CollapseSpaceOpts(opts Options) Editor {
 // characters, not by the bytes or runes that make it up. See the note on
 // Grapheme-Awareness in the [rosed] package docs for more info.
 func (ed Editor) Delete(start, end int) Editor {
-	if start >= end {
-		return ed
-	}
+	// normalize start and end together, the same way Chars does, so that
+	// negative indexes, End, and reversed ranges select the documented range.
+	sel := ed.Chars(start, end)
 
-	before := ed.CharsTo(start).Text
-	after := ed.CharsFrom(end).Text
+	before := ed.Text[:sel.ref.start]
+	after := ed.Text[sel.ref.end:]
 
 	ed.Text = before + after
 	return ed
